@@ -42,10 +42,11 @@ PROFILE = gf.make_profile(
            "if1": 3, "where": 0, "select": 0, "call": 1, "dowhile": 0,
            "exitcycle": 0, "assign_section": 1, "dep_pair": 8},
     dep_index=70, perfect_nest=25, helpers=(0, 1), nstmts=(2, 5),
-    array_intrinsics=False, functions=False)
+    array_intrinsics=False, functions=False, array_only_loops=35)
 PROFILE_NAMES = gf.make_profile(
     kinds=dict(PROFILE["kinds"]), dep_index=70, perfect_nest=25,
     helpers=(0, 0), nstmts=(2, 4), array_intrinsics=False, functions=False,
+    array_only_loops=50,
     extra_int_scalars=("d_i", "d1_i", "d_j", "d_l"))
 
 TIMEOUT = 30
